@@ -20,7 +20,7 @@ PROPS = {
         "assumptions": [
             "oracle tables (four-character codes from the MP4 registration authority list, ISO/IEC 14496-3 tables 1.17/1.18/1.19, ISO-639-2/T packing, H.264 Annex A constraint_set1_flag = bit 6) are typed independently in harness/src/props/c16.rs",
             "textual losslessness is only demanded of codes whose four bytes are valid UTF-8 (a &str cannot hold the others); DESIGN.md 8.3",
-            "8.8 signed wrapper: value() of a negative non-integer may be floor or truncation",
+            "8.8 signed wrapper: value() is the integer part, i.e. the value rounded towards zero (DESIGN 8.3)",
         ],
     },
 
@@ -28,7 +28,7 @@ PROPS = {
         "level": "exploration",
         "profiles": ["chk", "rel"],
         "death_is_violation": True,
-        "min_evals": {"quick": 5000, "thorough": 100000},
+        "min_evals": {"quick": 250000, "thorough": 4000000},
         "rule": ("muxer call histories (add_track / write_sample / rejected write_sample / write_end) are executed against the real "
                  "Mp4Writer and the output is read back with the real Mp4Reader and compared sample by sample (bytes, duration, "
                  "rendering offset, sync, start time, count, ids past the end) with a sequential model; writer-state hook snapshots "
@@ -48,7 +48,7 @@ PROPS = {
         "level": "exploration",
         "profiles": ["chk"],
         "death_is_violation": True,
-        "min_evals": {"quick": 5000, "thorough": 100000},
+        "min_evals": {"quick": 250000, "thorough": 3500000},
         "rule": ("same history space as C01; every output is decoded by the independent decoder harness/src/refdec.rs (no library code): "
                  "top-level tiling, ftyp first, exactly one moov and one mdat, strict container sizes, mdat size form and extent, per-track "
                  "table expansion (stts/ctts/stsc/stsz/stss/stco|co64) against the model, chunk containment and pairwise disjointness, bytes at "
@@ -62,7 +62,7 @@ PROPS = {
         "level": "exploration",
         "profiles": ["chk"],
         "death_is_violation": True,
-        "min_evals": {"quick": 3000, "thorough": 30000},
+        "min_evals": {"quick": 450000, "thorough": 6000000},
         "rule": ("random Mp4Config/TrackConfig values over the documented domain followed by a short random sample history, plus the full "
                  "46 x 13 x 7 AAC (object type, frequency index, channel configuration) grid and three-letter languages (every 7th quick, all "
                  "26^3 thorough); mux, reopen with the real reader, compare every accessor with the configuration and the durations with the exact "
@@ -78,7 +78,7 @@ PROPS = {
         "level": "exploration",
         "profiles": ["chk", "rel"],
         "death_is_violation": True,
-        "min_evals": {"quick": 4000, "thorough": 50000},
+        "min_evals": {"quick": 180000, "thorough": 3000000},
         "rule": ("documented-domain histories are perturbed into the degenerate domain by 1-3 of 14 argument classes (movie/track timescale 0, "
                  "weird language strings, parameter-set lengths 0..3 and >= 65535, all durations u32::MAX, extreme offsets, a 16 MiB+ sample, "
                  "write_end twice, writes/add_track after write_end, no tracks, unknown track ids, missing write_end, dimension extremes) plus "
@@ -95,7 +95,7 @@ PROPS = {
         "level": "exploration",
         "profiles": ["chk"],
         "death_is_violation": True,
-        "min_evals": {"quick": 20, "thorough": 100},
+        "min_evals": {"quick": 20, "thorough": 80},
         "rule": ("the real muxer writes into a sparse Write+Seek+Read stream (payload writes are verified against their generator while being "
                  "written and stored as extents). Scenarios place the media-data size at 2^32-1 / 2^32 (+1, -2, far above in thorough), a chunk offset "
                  "at 2^32-1 / 2^32 / 2^32+1 both by volume and by starting the output at stream position ~2^32, the media-header duration at "
@@ -114,7 +114,7 @@ PROPS = {
         "profiles": ["chk"],
         "death_is_violation": True,
         "exhaustive": {"quick": False, "thorough": False},
-        "min_evals": {"quick": 5000, "thorough": 50000},
+        "min_evals": {"quick": 18000, "thorough": 300000},
         "rule": ("files are synthesised by the independent reference encoder from a logical movie and a physical layout; the library only reads. "
                  "Exhaustive stratum: one track of N = 0..6 (thorough 0..7) samples x every composition of N into chunks x every subset of optional "
                  "stsc run breaks, crossed with stco/co64, fixed/varying/zero sizes, ctts absent/v0/v1, stss absent/present, split or maximal "
@@ -136,7 +136,7 @@ PROPS = {
         "level": "exploration",
         "profiles": ["chk"],
         "death_is_violation": True,
-        "min_evals": {"quick": 4000, "thorough": 40000},
+        "min_evals": {"quick": 250000, "thorough": 3000000},
         "rule": ("fragmented movies are synthesised by the reference encoder: 1-6 fragments, 1-3 tracks, 1-3 track fragments per movie fragment "
                  "(also two of the same track), 0-40 samples per run, base-data-offset explicit / default-base-is-moof / neither, tfhd default duration "
                  "or not, per-sample durations or not, composition offsets or not, tfdt v0/v1 (values beyond 2^32), data_offset absent / positive / "
@@ -154,7 +154,7 @@ PROPS = {
         "level": "exploration",
         "profiles": ["chk"],
         "death_is_violation": True,
-        "min_evals": {"quick": 3000, "thorough": 30000},
+        "min_evals": {"quick": 150000, "thorough": 2400000},
         "rule": ("logical movies from the C03 and C09 generators are realised in a canonical layout and in layout variants produced by tree "
                  "transformations of the reference encoder's box tree: a free/unknown box (32- or 64-bit header) inserted at every top-level position and "
                  "at every child slot of every iterating container (moov, trak, mdia, minf, stbl, dinf, udta, meta, ilst, ilst items, moof, traf, mvex, "
@@ -172,7 +172,7 @@ PROPS = {
         "level": "exploration",
         "profiles": ["chk"],
         "death_is_violation": True,
-        "min_evals": {"quick": 700, "thorough": 7000},
+        "min_evals": {"quick": 200000, "thorough": 3000000},
         "rule": ("reference-encoded movies with moov/udta/meta/ilst: every subset of the four items x handler mdir / other x placement (udta/meta, moov/meta, "
                  "udta without meta, no udta), payload lengths 0/1/255/65536/random, year as decimal text or 4-byte binary, multi-byte UTF-8 text, "
                  "0-3 unrelated items (arbitrary data types and contents, also header-only 8-byte items and raw non-`data` content; one such item placed first / in the middle / last for every tag subset) before/between/after, year text that is not a decimal number, meta with and without the version/flags word, hdlr first or "
@@ -189,7 +189,7 @@ PROPS = {
         "level": "exploration",
         "profiles": ["chk"],
         "death_is_violation": True,
-        "min_evals": {"quick": 5000, "thorough": 50000},
+        "min_evals": {"quick": 600000, "thorough": 12000000},
         "rule": ("for each of 48 box types (plus BoxHeader across the 2^32 boundary) the shape space - version 0/1, every combination of flag bits "
                  "gating optional fields (2^5 for tfhd, 2^6+cts for trun), optional children present/absent, list lengths 0/1/2/3/17 - is enumerated "
                  "exhaustively and each shape is filled with boundary-biased random field values (6 draws per shape quick, 60 thorough); 0-2 random "
@@ -206,7 +206,7 @@ PROPS = {
         "level": "exploration",
         "profiles": ["chk"],
         "death_is_violation": True,
-        "min_evals": {"quick": 5000, "thorough": 50000},
+        "min_evals": {"quick": 650000, "thorough": 13000000},
         "rule": ("same box/shape/value space as C04; every case is produced as an abstract field list from which the library value and the reference "
                  "bytes (independent encoder harness/src/refenc.rs, DESIGN Appendix A) derive. Checks: write_box(value) equals the reference bytes "
                  "(item-list children compared as a multiset); the reference bytes, their 64-bit-header form, sample entries with a random compressor name, "
@@ -228,7 +228,7 @@ PROPS = {
         # the `sanit` workload under the Miri interpreter (16 shards x miri_cases hostile inputs)
         "supplementary": {"thorough": ["asan", "miri"]},
         "miri_cases": 100,
-        "min_evals": {"quick": 20000, "thorough": 300000},
+        "min_evals": {"quick": 270000, "thorough": 2000000},
         "rule": ("seed corpus of ~50 valid files (the canned samples, reference-encoded movies of every codec/layout with metadata, edit lists, emsg, "
                  "fragmented streams and init+segment pairs, muxer outputs); mutators: single substitution of a boundary-value set (0,1,...,2^W-1, n, "
                  "remaining, box size, +-1/8/16, count that just fits) into every field of the reference encoder's field map (sizes, largesizes, fourccs, "
@@ -253,7 +253,7 @@ PROPS = {
         "level": "exploration",
         "profiles": ["chk"],
         "death_is_violation": True,
-        "min_evals": {"quick": 20000, "thorough": 300000},
+        "min_evals": {"quick": 130000, "thorough": 1000000},
         "rule": ("the C06 corpus and mutators under an instrumented stream: per call (open, open-as-fragment, each sample read / accessor group) at "
                  "most 4000 + 16 n stream operations and 1 MiB + 16 n transferred bytes (n = input length; the stream returns an error when exceeded, "
                  "so a reader that loops without consuming input terminates with evidence) and at most 50 ms + 2 us x n thread CPU time, counted only "
@@ -274,7 +274,7 @@ PROPS = {
         "level": "exploration",
         "profiles": ["rel"],
         "death_is_violation": True,
-        "min_evals": {"quick": 20000, "thorough": 300000},
+        "min_evals": {"quick": 130000, "thorough": 1000000},
         "rule": ("the C06 corpus and mutators under a counting global allocator: per call (open, open-as-fragment, every sample read and accessor group) "
                  "the peak of live heap bytes above the level at call entry must stay <= 64 KiB + 64 n and the largest single request <= 64 KiB + 16 n "
                  "(n = input length); requests above 1 GiB are recorded and refused, the resulting abort is attributed to the journalled case. "
@@ -291,7 +291,7 @@ PROPS = {
         "profiles": ["chk"],
         "death_is_violation": True,
         "exhaustive": {"quick": False, "thorough": True},
-        "min_evals": {"quick": 20000, "thorough": 50000},
+        "min_evals": {"quick": 900000, "thorough": 18000000},
         "rule": ("the fault is a truncation point. Subjects: 2000 (thorough 40 000) generated movies - plain with 1-3 interleaved tracks and the movie header "
                  "first or last, fragmented as one stream, and media segment + initialisation segment - and every file of the valid seed corpus (canned samples, reference-encoded movies of every codec with "
                  "movie header first or last, 64-bit and size-0 mdat, metadata, emsg, edit lists; fragmented single streams; media segments opened against "
@@ -313,7 +313,7 @@ PROPS = {
         "profiles": ["chk"],
         "death_is_violation": True,
         "exhaustive": {"quick": True, "thorough": True},
-        "min_evals": {"quick": 10000, "thorough": 50000},
+        "min_evals": {"quick": 1200000, "thorough": 18000000},
         "rule": ("for each explored reader subject (the valid seed corpus plus 800 / 16 000 generated plain and fragmented movies) a fault-free run counts the K stream calls "
                  "(read / seek) of the open call (read_header, or read_fragment_header for media segments) and of each read_sample call (first 6 samples "
                  "of every track); then the run is repeated once for EVERY k < K with a single injected error at call k. For each explored muxer history "
@@ -334,7 +334,7 @@ PROPS = {
         "level": "exploration",
         "profiles": ["chk"],
         "death_is_violation": True,
-        "min_evals": {"quick": 400, "thorough": 4000},
+        "min_evals": {"quick": 170000, "thorough": 2500000},
         "rule": ("(a) for every file of the seed corpus, and for 39 (thorough 399) damaged variants of each (truncated media data, byte-level havoc) so that "
                  "failing calls occur, one long-lived reader receives a schedule of 200-2000 calls - half drawn uniformly, half placed relative to the recent "
                  "past (successor / predecessor / repetition of the last successful read, neighbours of the last failed read, repetition of the last call) - "
